@@ -101,6 +101,8 @@ KINDS = {
     "b8_two": "uint8 {n}a:8; uint8 {n}b:8;",
     "b16_su": "uint16 {n}a:4; int16 {n}b:4;",
     "b8_us": "uint8 {n}a:3; int8 {n}b:3; uint8 {n}c:2;",
+    "bc8": "uint8 {n}a:4; char {n}b:4;",
+    "bcc": "char {n}a:3; char {n}b:5;",
     "b8_whole": "uint8 {n}x:8;",
     "b32_whole": "uint32 {n}x:32;",
     "bf32_whole": "F32 {n}x:32;",
